@@ -272,7 +272,10 @@ func allTypes() []typeInfo {
 	sort.Strings(keys)
 	var out []typeInfo
 	for _, k := range keys {
-		d, _ := dpt.Produce(k)
+		d, ok := dpt.Produce(k)
+		if !ok || d == nil {
+			continue // reported by the registry check (C19); nothing to encode or decode here
+		}
 		out = append(out, typeInfo{key: k, name: typeName(d), fixed: len(d.Pack()), kind: reflect.ValueOf(d).Elem().Kind(), sample: d})
 	}
 	return out
@@ -653,6 +656,10 @@ func main() {
 	budget := flag.Int("budget", 20000, "operation budget; >= 1000000 selects the thorough generators")
 	dir := flag.String("dir", "", "output directory")
 	flag.Parse()
+	if *prop == "C19cold" {
+		coldConcurrentProduce()
+		return
+	}
 	if *dir == "" {
 		fmt.Fprintln(os.Stderr, "need -dir")
 		os.Exit(2)
